@@ -331,10 +331,15 @@ def gen_edit(rng, t, G, pool, max_lock):
     return ['e', 'wit', None]
 
 
-def gen_history(rng, G, pool, focus, big=False):
-    """focus = 'legacy' (C03) or 'v0' (C04); both algorithms are interleaved on the same object"""
+def gen_history(rng, G, pool, focus, big=False, many=None):
+    """focus = 'legacy' (C03) or 'v0' (C04); both algorithms are interleaved on the same object.
+    `many = (nin, nout)`: a transaction with that many (minimal) inputs / outputs, probed at the indices around
+    CPython's small-int boundary (256 / 257) and at the ends."""
     max_lock = (1 << 31) - 1 if focus == 'legacy' else U32     # C03 stays clear of the D1 domain of the v0 calls
-    t = G.gen_tx(rng, pool, nin=rng.randrange(1, 4), nout=rng.randrange(0, 4))
+    if many is None:
+        t = G.gen_tx(rng, pool, nin=rng.randrange(1, 4), nout=rng.randrange(0, 4))
+    else:
+        t = G.many_tx(rng, many[0], many[1])
     if t['lock'] > max_lock:
         t['lock'] = rng.choice((0, 1, max_lock))
     cls = 'm' if rng.random() < 0.8 else 'i'
@@ -342,19 +347,24 @@ def gen_history(rng, G, pool, focus, big=False):
     amount = rng.choice((0, 1, G.I64MAX, rng.randrange(1 << 63)))
     main, other = (('raw', 'wrap'), 'v0') if focus == 'legacy' else (('v0',), 'raw')
     # the probes repeated in every round (so that a stale memo is hit), plus random ones
-    probes = [(rng.choice(main), rng.randrange(0, 3), ht) for ht in rng.sample(G.HT_STANDARD, 3)]
-    probes.append((other, rng.randrange(0, 3), rng.choice(G.HT_STANDARD)))
+    def pidx():
+        if many is None:
+            return rng.randrange(0, 3)
+        return rng.choice((0, 255, 256, 257, 257, 258, many[0] - 1))
+    probes = [(rng.choice(main), pidx(), ht) for ht in (rng.sample(G.HT_STANDARD, 3) if many is None else (2, 3, 0x83))]
+    probes.append((other, pidx(), rng.choice(G.HT_STANDARD)))
     steps = []
     cur = t
 
     def queries():
         n = len(cur['vin'])
-        qs = list(probes) + [(rng.choice(main + (other,)), rng.randrange(0, 4), rng.randrange(256))]
+        qs = list(probes) + [(rng.choice(main + (other,)), rng.randrange(0, 4) if many is None else pidx(),
+                              rng.randrange(256))]
         rng.shuffle(qs)
         for (algo, idx, ht) in qs:
             idx = min(idx, n if algo != 'v0' else n - 1)
             steps.append(['q', algo, idx, ht])
-    rounds = rng.randrange(2, 6)
+    rounds = rng.randrange(2, 6) if many is None else 2
     queries()
     for _ in range(rounds):
         for _ in range(rng.choice((1, 1, 1, 2))):
